@@ -159,6 +159,8 @@ func (p *parser) parseMailbox() (string, error) {
 	sb.WriteString(localPart)
 	sb.WriteByte('@')
 
+	// address-literal, such as [127.0.0.1] or [IPv6:::1]
+	literal := strings.HasPrefix(p.s, "[")
 	for {
 		ch, ok := p.peekByte()
 		if !ok {
@@ -166,6 +168,12 @@ func (p *parser) parseMailbox() (string, error) {
 		}
 		if ch == ' ' || ch == '\t' || ch == '>' {
 			break
+		}
+		if !literal {
+			switch ch {
+			case '(', ')', '<', '[', ']', ':', ';', '@', '\\', ',', '"':
+				return "", fmt.Errorf("malformed domain")
+			}
 		}
 		p.readByte()
 		sb.WriteByte(ch)
